@@ -14,26 +14,9 @@ STATUS_FUNCS: Dict[str, Callable[[Tuple[int, ...]], int]] = {
 }
 
 def codec_kwargs(codec: str) -> Dict[str, Any]:
-    """'custom': the application configures its own JSON encoder / decoder classes on the integration (documented dispatcher arguments):
-    floats are parsed as Decimal and Decimal results are written as strings - visible only when BOTH hooks are honoured"""
-    if codec == 'default':
-        return {}
-    import decimal
-    import json
-    import pjrpc.server
-
-    class AppEncoder(pjrpc.server.JSONEncoder):
-        def default(self, o: Any) -> Any:
-            if isinstance(o, decimal.Decimal):
-                return f'decimal:{o}'
-            return super().default(o)
-
-    class AppDecoder(json.JSONDecoder):
-        def __init__(self, **kwargs: Any):
-            kwargs['parse_float'] = decimal.Decimal
-            super().__init__(**kwargs)
-
-    return {'json_encoder': AppEncoder, 'json_decoder': AppDecoder}
+    """'custom': application JSON encoder / decoder classes on the integration (see pbt/codecs.py)"""
+    from pbt import codecs
+    return codecs.kwargs_for('classes' if codec == 'custom' else codec, 'server')
 
 
 def bare_dispatcher(kind: str, which: str, codec: str):
